@@ -41,7 +41,9 @@ BASES = ["-2", "0", "1/2", "1", "2", "e", "10", "0.9", "3", "1.0", "1/10",
          "1.0000000001", "0.9999999999", "1.000000000000001", "1 + 1/10^12", "1 + 1/10^20", "1 - 1/10^20", "0.0000000001", "-0.0000000001"]
 EXPS = ["0", "1", "2", "3", "-1", "-2", "1/2", "-1/2", "1/3", "2.5", "-0.5", "0.5", "10", "100", "1000", "2/3",
         # fractional exponents next to an integer (a negative base must still be rejected)
-        "2.0000000001", "1.0000000001", "-3.0000000001", "2.000000000000001", "1.9999999999", "3 + 1/10^12", "-1.0000000001", "0.0000000001"]
+        "2.0000000001", "1.0000000001", "-3.0000000001", "2.000000000000001", "1.9999999999", "3 + 1/10^12", "-1.0000000001", "0.0000000001",
+        # whole exponents far beyond anything that could be multiplied out: the bases 1, -1 and 0 still have a power
+        "134217729", "10^9+1", "10^100", "2^64", "-(10^9+1)", "20!"]
 
 
 def mp_ref(reqs):
@@ -268,6 +270,8 @@ def check(ctx):
                 if est < 290 and not (qx == 0 and qy == 0):
                     ctx.violation("elem-rejected:" + text, text, "the value of %s ^ %s (inside the real domain)" % (qx, qy), "err " + v, how)
             real = "ok " + canon_or_other(v) if k == "ok" else "err " + v
+            if abs(qy) > 2 ** 27 and qy.denominator == 1:
+                continue            # oracle only: the model's integer power takes its exponent as a machine word
             cases.append(("elem pow %s %s" % (num_canon(x), num_canon(y)), real, text))
 
     def agree(real, model, info):
